@@ -14,45 +14,46 @@ import sys
 
 sys.path.insert(0, os.path.dirname(os.path.abspath(__file__)))
 import rs2lean  # noqa: E402
+import extract_layouts  # noqa: E402  (type widths derived from the source)
 
 REPO = os.environ.get("JBK_REPO", "/repo")
 HERE = os.path.dirname(os.path.abspath(__file__))
-OUT = os.environ.get("JBK_FUNCS_OUT") or os.path.normpath(os.path.join(HERE, "..", "lean", "JubakoModel", "Generated", "Funcs.lean"))
+OUTDIR = os.environ.get("JBK_FUNCS_OUT") or os.path.normpath(os.path.join(HERE, "..", "lean", "JubakoModel", "Generated"))
 PINNED = os.path.join(HERE, "funcs_pinned.json")
 
 N = "Nat"
 
 TARGETS = [
     # ---- bases
-    dict(name="neededBytes", file="src/bases/mod.rs", fn="needed_bytes",
+    dict(name="neededBytes", group="Bytes", file="src/bases/mod.rs", fn="needed_bytes",
          cfg=dict(params=[("val", N)], ret=N, fuel="val + 1")),
-    dict(name="sizedOffsetPack", file="src/bases/types/sized_offset.rs", fn="serialize", after=r"impl Serializable for SizedOffset",
+    dict(name="sizedOffsetPack", group="Bytes", file="src/bases/types/sized_offset.rs", fn="serialize", after=r"impl Serializable for SizedOffset",
          cfg=dict(params=[("offset", N), ("size", N)], ret=N, self_fields={"offset": "offset", "size": "size"},
                   self_methods={}, methods={"write_u64": "{0}"}, exprs={}, funcs={},
                   )),
-    dict(name="sizedOffsetUnpack", file="src/bases/types/sized_offset.rs", fn="parse", after=r"impl Parsable for SizedOffset",
+    dict(name="sizedOffsetUnpack", group="Bytes", file="src/bases/types/sized_offset.rs", fn="parse", after=r"impl Parsable for SizedOffset",
          cfg=dict(params=[("data", N)], ret="Nat × Nat", exprs={"parser.read_u64()": "data"},
                   funcs={"Self::new": "({0}, {1})"})),
-    dict(name="contentInfoPack", file="src/common/content_info.rs", fn="serialize", after=r"impl Serializable for ContentInfo",
+    dict(name="contentInfoPack", group="Bytes", file="src/common/content_info.rs", fn="serialize", after=r"impl Serializable for ContentInfo",
          cfg=dict(params=[("cluster", N), ("blob", N)], ret=N, self_fields={"cluster_index": "cluster", "blob_index": "blob"},
                   methods={"write_u32": "{0}"})),
-    dict(name="contentInfoUnpack", file="src/common/content_info.rs", fn="parse", after=r"impl Parsable for ContentInfo",
+    dict(name="contentInfoUnpack", group="Bytes", file="src/common/content_info.rs", fn="parse", after=r"impl Parsable for ContentInfo",
          cfg=dict(params=[("v", N)], ret="Nat × Nat", exprs={"parser.read_u32()": "v"},
                   struct_as={"Self": ["cluster_index", "blob_index"]})),
     # ---- content pack creator
-    dict(name="clusterIsFull", file="src/creator/content_pack/cluster.rs", fn="is_full",
+    dict(name="clusterIsFull", group="Content", file="src/creator/content_pack/cluster.rs", fn="is_full",
          cfg=dict(params=[("nblobs", N), ("compressed", "Bool"), ("dataSize", N), ("size", N)], ret="Bool",
                   exprs={"self.offsets.len()": "nblobs", "self.offsets.is_empty()": "decide (nblobs = 0)"},
                   self_fields={"compressed": "compressed"}, self_methods={"data_size": "dataSize"},
                   paths={"MAX_BLOBS_PER_CLUSTER": "Consts.maxBlobsPerCluster", "CLUSTER_SIZE": "Consts.clusterSize"})),
     # ---- directory pack creator
-    dict(name="signedSizeKey", file="src/creator/directory_pack/schema/property.rs", fn="signed_size_key",
+    dict(name="signedSizeKey", group="Dir", file="src/creator/directory_pack/schema/property.rs", fn="signed_size_key",
          cfg=dict(params=[("v", "Int")], ret="Int", int=True,
                   methods={"checked_mul": "(if {recv} * {0} ≤ 9223372036854775807 then some ({recv} * {0}) else none)",
                            "unwrap_or": "(({recv}).getD {0})"},
                   paths={"i64::MAX": "9223372036854775807"})),
     # ---- reader: search
-    dict(name="rangeFind", file="src/reader/directory_pack/range.rs", fn="find",
+    dict(name="rangeFind", group="Search", file="src/reader/directory_pack/range.rs", fn="find",
          cfg=dict(params=[("cmpAt", "Nat → Ordering"), ("ordered", "Bool"), ("off", N), ("count", N)], ret="Option Nat",
                   self_methods={"count": "count", "offset": "off"},
                   exprs={"comparator.ordered()": "ordered"},
@@ -61,21 +62,21 @@ TARGETS = [
                   for_counts={"self.count()": ("0", "count")},
                   fuel="count + 1")),
     # ---- regions and streams
-    dict(name="regionCutRel", file="src/bases/types/range.rs", fn="cut_rel",
+    dict(name="regionCutRel", group="View", file="src/bases/types/range.rs", fn="cut_rel",
          cfg=dict(params=[("rbegin", N), ("rend", N), ("offset", N), ("size", N)], ret="Nat × Nat",
                   self_methods={"begin": "rbegin", "end": "rend"},
                   funcs={"Self::new": "({0}, {1})"})),
-    dict(name="streamSizeLeft", file="src/reader/byte_stream.rs", fn="size_left",
+    dict(name="streamSizeLeft", group="View", file="src/reader/byte_stream.rs", fn="size_left",
          cfg=dict(params=[("rbegin", N), ("rend", N), ("cursor", N)], ret=N, self_fields={"offset": "cursor"},
                   exprs={"self.region.end()": "rend", "self.region.begin()": "rbegin", "self.region.size()": "(rend - rbegin)"})),
-    dict(name="streamSize", file="src/reader/byte_stream.rs", fn="size",
+    dict(name="streamSize", group="View", file="src/reader/byte_stream.rs", fn="size",
          cfg=dict(params=[("rbegin", N), ("rend", N), ("cursor", N)], ret=N, self_fields={"offset": "cursor"},
                   exprs={"self.region.end()": "rend", "self.region.begin()": "rbegin", "self.region.size()": "(rend - rbegin)"})),
-    dict(name="streamOffset", file="src/reader/byte_stream.rs", fn="offset", after=r"impl ByteStream",
+    dict(name="streamOffset", group="View", file="src/reader/byte_stream.rs", fn="offset", after=r"impl ByteStream",
          cfg=dict(params=[("rbegin", N), ("rend", N), ("cursor", N)], ret=N, self_fields={"offset": "cursor"},
                   exprs={"self.region.end()": "rend", "self.region.begin()": "rbegin", "self.region.size()": "(rend - rbegin)"})),
     # ---- the manifest's masked check stream: one `read` call = (bytes asked of the source, delivered as zeros?)
-    dict(name="checkStreamStep", file="src/common/check.rs", fn="read", after=r"impl<S: Read> Read for ManifestCheckStream",
+    dict(name="checkStreamStep", group="Check", file="src/common/check.rs", fn="read", after=r"impl<S: Read> Read for ManifestCheckStream",
          cfg=dict(params=[("blk", N), ("packOffset", N), ("startSafeZone", N), ("offset", N), ("bufLen", N)], ret="Nat × Bool",
                   prelude="let zeroed := false", prelude_scope=["zeroed"], local_types={"zeroed": "Bool"},
                   self_fields={"current_offset": "offset", "pack_offset": "packOffset", "start_safe_zone": "startSafeZone"},
@@ -84,7 +85,7 @@ TARGETS = [
                          "Ok(read_size)": "(read_size, zeroed)"},
                   effects={"buf[..size].fill(0)": "let zeroed := true"})),
     # ---- cluster tail: the sequence of (value, width) writes after the cluster header
-    dict(name="clusterTailWrites", file="src/creator/content_pack/clusterwriter.rs", fn="serialize_cluster_tail",
+    dict(name="clusterTailWrites", group="Content", file="src/creator/content_pack/clusterwriter.rs", fn="serialize_cluster_tail",
          cfg=dict(params=[("compression", N), ("nblobs", N), ("dataSize", N), ("offsets", "List Nat"), ("raw_data_size", N)],
                   ret="(Nat × Nat × Nat) × List (Nat × Nat)", writes=True, no_loops=True,
                   prelude="let out : List (Nat × Nat) := []", prelude_scope=["out"],
@@ -92,6 +93,38 @@ TARGETS = [
                   funcs={"needed_bytes": "((Generated.neededBytes {0}).getD 0)", "ClusterHeader::new": "({0}, {1}, {2})"},
                   serializes={"cluster_header": "[]"},
                   iters={"&cluster.offsets[..cluster.offsets.len() - 1]": "offsets.dropLast"})),
+    # ---- pack sizes declared by the four creators
+    dict(name="blockCheckSize", group="Check", file="src/bases/block.rs", fn="size", after=r"impl BlockCheck",
+         cfg=dict(params=[("kind", N)], ret=N, exprs={}, paths={"self": "kind"}, patterns={"Self::None": "0", "Self::Crc32": "_"})),
+    dict(name="checkKindBlockSize", group="Check", file="src/common/check.rs", fn="block_size", after=r"impl CheckKind",
+         cfg=dict(params=[("kind", N)], ret=N, paths={"self": "kind"}, patterns={"Self::None": "0", "Self::Blake3": "_"},
+                  exprs={"BlockCheck::Crc32.size()": "(blockCheckSize 1)"})),
+    dict(name="containerPackSize", group="Check", file="src/creator/container_pack.rs", fn="finalize", let="pack_size",
+         cfg=dict(params=[("check_info_pos", N), ("headerBlock", N)], ret=N, paths={"PackHeader::BLOCK_SIZE": "headerBlock"}, exprs={"CheckKind::None.block_size()": "(checkKindBlockSize 0)", "CheckKind::Blake3.block_size()": "(checkKindBlockSize 1)"})),
+    dict(name="contentPackSize", group="Check", file="src/creator/content_pack/creator.rs", fn="finalize", let="pack_size",
+         cfg=dict(params=[("check_offset", N), ("headerBlock", N)], ret=N, paths={"PackHeader::BLOCK_SIZE": "headerBlock"}, exprs={"CheckKind::None.block_size()": "(checkKindBlockSize 0)", "CheckKind::Blake3.block_size()": "(checkKindBlockSize 1)"})),
+    dict(name="directoryPackSize", group="Check", file="src/creator/directory_pack/directory_pack.rs", fn="write", let="pack_size", after=r"impl FinalizedDirectoryPackCreator",
+         cfg=dict(params=[("check_offset", N), ("headerBlock", N)], ret=N, paths={"PackHeader::BLOCK_SIZE": "headerBlock"}, exprs={"CheckKind::None.block_size()": "(checkKindBlockSize 0)", "CheckKind::Blake3.block_size()": "(checkKindBlockSize 1)"})),
+    dict(name="manifestPackSize", group="Check", file="src/creator/manifest_pack.rs", fn="finalize", let="pack_size",
+         cfg=dict(params=[("check_offset", N), ("headerBlock", N)], ret=N, paths={"PackHeader::BLOCK_SIZE": "headerBlock"}, exprs={"CheckKind::None.block_size()": "(checkKindBlockSize 0)", "CheckKind::Blake3.block_size()": "(checkKindBlockSize 1)"})),
+    dict(name="idxIsValid", group="Bytes", file="src/bases/types/idx.rs", fn="is_valid",
+         cfg=dict(params=[("idx", N), ("s", N)], ret="Bool", exprs={"self.0": "idx"})),
+    dict(name="offsetIsValid", group="Bytes", file="src/bases/types/offset.rs", fn="is_valid",
+         cfg=dict(params=[("off", N), ("s", N)], ret="Bool", exprs={"self.0": "off"})),
+    # ---- value store tails (writer mode)
+    dict(name="plainStoreTailWrites", group="Dir", file="src/creator/directory_pack/value_store.rs", fn="serialize_tail", after=r"impl WritableTell for PlainValueStore",
+         cfg=dict(params=[("dataSize", N)], ret="List (Nat × Nat)", writes=True, no_loops=True,
+                  prelude="let out : List (Nat × Nat) := []", prelude_scope=["out"],
+                  serializes={"self.size()": ("dataSize", "Size")}, exprs={"Ok(())": "out"})),
+    dict(name="indexedStoreTailWrites", group="Dir", file="src/creator/directory_pack/value_store.rs", fn="serialize_tail", after=r"impl WritableTell for IndexedValueStore",
+         cfg=dict(params=[("values", "List (List UInt8)"), ("dataSize", N)], ret="List (Nat × Nat)", writes=True, no_loops=True,
+                  prelude="let out : List (Nat × Nat) := []", prelude_scope=["out"],
+                  funcs={"needed_bytes": "((Generated.neededBytes {0}).getD 0)"},
+                  serializes={"offset_size": ("offset_size", "ByteSize")},
+                  exprs={"self.0.sorted_indirect.len()": "values.length", "self.0.size.into_u64()": "dataSize",
+                         "self.0.sorted_indirect.is_empty()": "decide (values = [])", "self.0.data[*idx].0": "idx",
+                         "data.len()": "data.length", "Ok(())": "out"},
+                  iters={"&self.0.sorted_indirect[..(self.0.sorted_indirect.len() - 1)]": "values.dropLast"})),
 ]
 
 
@@ -100,23 +133,32 @@ def read(path):
         return f.read()
 
 
+GROUP_IMPORTS = {"Content": ["JubakoModel.Generated.FuncsBytes"], "Dir": ["JubakoModel.Generated.FuncsBytes"]}
+GROUP_ORDER = ["Bytes", "Content", "Dir", "Search", "View", "Check"]
+
+
 def main():
     pinned = {}
     if os.path.exists(PINNED):
         pinned = json.load(open(PINNED))
     status = {}
-    chunks = []
-    only = set(sys.argv[2:]) if len(sys.argv) > 2 and sys.argv[1] == "--only" else None
+    chunks = {g: [] for g in GROUP_ORDER}
+    try:
+        widths, _notes = extract_layouts.type_widths()
+    except Exception:
+        widths = {}
     for t in TARGETS:
         name = t["name"]
-        if only and name not in only:
-            continue
+        t["cfg"].setdefault("type_widths", widths)
         st = "extracted"
         text = None
         try:
             src = read(t["file"])
             sig, body = rs2lean.function_source(src, t["fn"], t.get("after"))
-            text = rs2lean.translate(name, body, t["cfg"])
+            if t.get("let"):
+                text = rs2lean.translate_expr(name, rs2lean.let_initialiser(body, t["let"]), t["cfg"])
+            else:
+                text = rs2lean.translate(name, body, t["cfg"])
             if name in pinned and pinned[name] != text:
                 st = "extracted-changed"
         except rs2lean.Untranslatable as e:
@@ -125,29 +167,32 @@ def main():
             st = "not-derived: " + type(e).__name__ + " " + str(e)[:160]
         if text is None:
             text = pinned.get(name, f"-- {name}: not derived and no pinned text\n")
-        status[name] = {"status": st, "file": t["file"], "fn": t["fn"]}
-        chunks.append(f"/- `{t['fn']}` in {t['file']} -/\n" + text)
+        status[name] = {"status": st, "file": t["file"], "fn": t["fn"], "group": t["group"]}
+        chunks[t["group"]].append(f"/- `{t['fn']}` in {t['file']} -/\n" + text)
         if "--pin" in sys.argv and st.startswith("extracted"):
             pinned[name] = text
-    header = ("/- GENERATED by tools/extract_funcs.py (translator: tools/rs2lean.py) from /repo/src on every run. Do not edit.\n"
-              "   Bodies of small pure Rust functions translated to Lean; semantics of the translation: DESIGN.md §12.7. -/\n"
-              "import JubakoModel.Generated.Consts\n"
-              "set_option linter.unusedVariables false\n"
-              "namespace Jubako.Generated\nopen Jubako\n\n")
-    text = header + "\n".join(chunks) + "\nend Jubako.Generated\n"
     if "--pin" in sys.argv:
         json.dump(pinned, open(PINNED, "w"), indent=1, ensure_ascii=False)
-    if "--stdout" in sys.argv:
-        print(text)
-        return
-    if not only:
-        os.makedirs(os.path.dirname(OUT), exist_ok=True)
-        old = open(OUT).read() if os.path.exists(OUT) else None
+    for g in GROUP_ORDER:
+        imports = "".join(f"import {m}\n" for m in ["JubakoModel.Generated.Consts"] + GROUP_IMPORTS.get(g, []))
+        header = ("/- GENERATED by tools/extract_funcs.py (translator: tools/rs2lean.py) from /repo/src on every run. Do not edit.\n"
+                  "   Bodies of small pure Rust functions translated to Lean; semantics of the translation: DESIGN.md §12.7. -/\n"
+                  + imports +
+                  "set_option linter.unusedVariables false\n"
+                  "namespace Jubako.Generated\nopen Jubako\n\n")
+        text = header + "\n".join(chunks[g]) + "\nend Jubako.Generated\n"
+        if "--stdout" in sys.argv:
+            print(text)
+            continue
+        out = os.path.join(OUTDIR, f"Funcs{g}.lean")
+        os.makedirs(OUTDIR, exist_ok=True)
+        old = open(out).read() if os.path.exists(out) else None
         if old != text:
-            with open(OUT, "w") as f:
+            with open(out, "w") as f:
                 f.write(text)
-    json.dump(status, sys.stdout, indent=1)
-    print()
+    if "--stdout" not in sys.argv:
+        json.dump(status, sys.stdout, indent=1)
+        print()
 
 
 if __name__ == "__main__":
